@@ -294,6 +294,10 @@ pub fn scenarios() -> Vec<(&'static str, Op)> {
         }),
         ("Command::spawn inherit + wait", |e| spawn_scn(e, [0, 0, 0])),
         ("Command::spawn null,pipe,pipe + wait", |e| spawn_scn(e, [2, 3, 3])),
+        // daemon-style caller: its own descriptors 0 and 1 are closed while the operation runs, so
+        // the operation's pipes land on the standard numbers (see CLOSED_STD in run_case)
+        ("Command::spawn null,pipe,pipe + wait [caller's 0 and 1 closed]", |e| spawn_scn(e, [2, 3, 3])),
+        ("Command::spawn inherit + wait [caller's 0 and 1 closed]", |e| spawn_scn(e, [0, 0, 0])),
         ("Command::spawn pipe,null,rawfd + wait", |e| spawn_scn(e, [3, 2, 4])),
         ("Command::spawn missing binary", |e| {
             let bin = p(e, "no-such-bin");
@@ -610,8 +614,36 @@ pub struct RunResult {
     pub sig_err: Option<Failure>,
 }
 
-/// Run one (scenario, fault) pair and judge it.
+const CLOSED_STD: &str = "[caller's 0 and 1 closed]";
+
+/// Run one (scenario, fault) pair and judge it. Scenarios marked CLOSED_STD run with the harness's
+/// own descriptors 0 and 1 parked on high numbers and closed; they are put back afterwards.
 pub fn run_case(env: &Env, name: &str, op: Op, fault: Option<(u32, i32)>, after_exec: bool, child_fault: &Option<(String, u32, i32)>, rep: &mut CaseReport) -> Result<Vec<sc::verif::Call>, Failure> {
+    if !name.contains(CLOSED_STD) {
+        return run_case_inner(env, name, op, fault, after_exec, child_fault, rep);
+    }
+    let mut saved: Vec<(i32, i32)> = Vec::new();
+    for n in 0..2 {
+        let hi = unsafe { libc::fcntl(n, libc::F_DUPFD_CLOEXEC, 200) };
+        if hi >= 0 {
+            saved.push((n, hi));
+            unsafe { libc::close(n) };
+        }
+    }
+    let r = run_case_inner(env, name, op, fault, after_exec, child_fault, rep);
+    let _ = sc::verif::log_end();
+    sc::verif::clear_plan();
+    for (n, hi) in saved {
+        unsafe {
+            libc::dup2(hi, n);
+            libc::close(hi);
+        }
+    }
+    rep.class("caller-std-descriptors-closed");
+    r
+}
+
+fn run_case_inner(env: &Env, name: &str, op: Op, fault: Option<(u32, i32)>, after_exec: bool, child_fault: &Option<(String, u32, i32)>, rep: &mut CaseReport) -> Result<Vec<sc::verif::Call>, Failure> {
     reset_files(env);
     let before = snapshot();
     let mut rules = Vec::new();
